@@ -277,6 +277,7 @@ def run(req, ctx):
     loaded_variant = {}   # path index -> variant index at last load (for the non-trivial rule)
     parser = Parser().disable_safety_check()
     klass_by_text = {}
+    shared_ns = {}
     log = []
     mism = []
     rewritten_and_reloaded = False
@@ -384,9 +385,12 @@ def run(req, ctx):
                     got = {'load': outcome_of_exc(e)}
                 try:
                     if text not in klass_by_text:
-                        ns_ = {}
-                        exec(compile(text, '<class object>', 'exec'), ns_)
-                        klass_by_text[text] = ns_['ExcelInPython']
+                        # like an application that exec's every translation it gets into its own globals: the name
+                        # ExcelInPython is rebound each time, the class objects obtained earlier stay in use
+                        exec(compile(text, '<class object>', 'exec'), shared_ns)
+                        klass_by_text[text] = shared_ns['ExcelInPython']
+                        if len(klass_by_text) > 1:
+                            probe('translations_execd_into_one_namespace')
                     else:
                         probe('class_object_shared_by_several_executors')
                     ex_obj = Executor().set_executed_class(class_object=klass_by_text[text])
